@@ -5,6 +5,18 @@ from . import core
 from . import interp_gen as G
 
 
+def family_programs(ctx, f, workers=2):
+    """Model-check the declarative family f and return the programs TLC printed."""
+    import re
+    r = ctx.model_check('Interp_MC_' + f, cfg='Interp_MC_' + f + '.cfg', workers=workers, require_actions=False)
+    progs = []
+    for m in re.finditer(r'^<<"PROGRAM", "(.*)">>\s*$', r['out'], re.M):
+        progs.append(json.loads(m.group(1).encode().decode('unicode_escape')))
+    if not progs:
+        raise core.MachineryError('family %s printed no programs' % f)
+    return progs
+
+
 def run_model_families(ctx, families, workers=2):
     """Spec -> code: model-check each declarative family (Interp_MC_<f>), take the programs TLC printed and run every
     one of them on the real interpreter; the traces are validated by Interp_Trace like any other."""
@@ -52,7 +64,7 @@ def run_model_families(ctx, families, workers=2):
     return len(progs)
 
 
-def run_family(ctx, profile, nprog, size=14, schedules=None, batch=250, clause_props=None, tag='', focus=None):
+def run_family(ctx, profile, nprog, size=14, schedules=None, batch=250, clause_props=None, tag='', focus=None, direct=0.0):
     """Returns dict of statistics. profile: set of statement families."""
     rng = ctx.rng
     stats = {'programs': 0, 'boundaries': 0, 'ended': {}, 'fragment_discards': 0, 'cut': 0}
@@ -72,6 +84,14 @@ def run_family(ctx, profile, nprog, size=14, schedules=None, batch=250, clause_p
             texts.append(text)
             sched = schedules(rng, prog) if schedules else None
             ev = runner.run(len(progs), prog['vars'], schedule=sched)
+            if direct and ev[-1].get('k') in ('end', 'error', 'break') and rng.random() < direct:
+                # a line typed at the prompt after the run: error trap and event traps are still armed
+                dl = G.direct_line(rng)
+                ds = {}
+                for _ in range(rng.randint(0, 3)):
+                    ds.setdefault(rng.randint(1, 8), []).append(rng.choice([1, 2, 3]))
+                ev += runner.run_direct(dl, prog['vars'], schedule=ds if 'trap' in profile else None)
+                stats['direct_lines'] = stats.get('direct_lines', 0) + 1
             for e in ev:
                 owner.append(len(progs) - 1)
             events += ev
